@@ -84,6 +84,19 @@ Theorem C17_motif_identities_general : forall nt,
 Proof. exact motif_identities_general. Qed.
 Print Assumptions C17_motif_identities_general.
 
+(* GENERAL, END TO END: one MessagePassing object queried repeatedly (its evaluator's caches persist and fill
+   up), and the extracted reduced-fraction model the implementation is compared with, return the
+   SPECIFICATION's values for every well-formed network (motifs of any size) *)
+Theorem C17_object_is_spec : forall nt T phis, net_okb nt = true ->
+    Forall2 Qeq (mp_object nt T phis) (map (mp_spec nt T) phis).
+Proof. exact object_is_spec. Qed.
+Print Assumptions C17_object_is_spec.
+
+Theorem C17_wire_model_is_spec : forall nt T phis, net_okb nt = true ->
+    Forall2 Qeq (mp_history (eqn_cached alg_qr) nt T caches_empty phis) (map (mp_spec nt T) phis).
+Proof. exact wire_model_is_spec. Qed.
+Print Assumptions C17_wire_model_is_spec.
+
 (* GENERAL: the value is a probability *)
 Theorem C17_bounds : forall nt T phi, 0 <= phi <= 1 -> n_nodes nt <> [] -> 0 <= mp_spec nt T phi <= 1.
 Proof. exact spec_bounds. Qed.
